@@ -33,7 +33,7 @@ def gen_config(rng, tier, flavor="db"):
         "gap_rate": rng.choice([0.0, 0.2, 0.5]),
         "counts": rng.choice(["ones", "ints"]),
         "err_style": rng.choice(["norm", "third"]),
-        "inbreeding": rng.choice([0.0, 0.0, 0.05, 0.3, 0.9, 0.99, 0.001]),
+        "inbreeding": rng.choice([0.0, 0.0, 0.05, 0.3, 0.9, 0.99, 0.001, 0.0005, 0.0002]),
         "step_type": rng.choice(["Gibbs", "Metropolis-Hastings"]),
         "steps": rng.randint(3, 8 if not big else 15),
         "chains": rng.choice([1, 2, 2, 3]),
